@@ -47,6 +47,62 @@ struct Server {
     done: Arc<AtomicU32>,
 }
 
+/// C14: a machine that puts frames with undecodable headers on the wire between the legitimate traffic
+struct Attacker {
+    frames: Vec<(u64, Vec<u8>, bool)>, // (time, bytes, is_arp)
+}
+
+#[async_trait::async_trait]
+impl Protocol for Attacker {
+    async fn start(&self, _sd: Shutdown, initialized: Arc<Barrier>, machine: Arc<Machine>) -> Result<(), StartError> {
+        initialized.wait().await;
+        let sess = machine.protocol::<Pci>().unwrap().open(0);
+        let mut frames = self.frames.clone();
+        frames.sort_by_key(|f| f.0);
+        let mut now = 0u64;
+        for (at, bytes, is_arp) in frames {
+            if at > now {
+                tokio::time::sleep(Duration::from_micros(at - now)).await;
+                now = at;
+            }
+            let n = bytes.len();
+            let r = sess.send_pci(Message::new(bytes), None, if is_arp { TypeId::of::<Arp>() } else { TypeId::of::<Ipv4>() });
+            emit(json!({"ev":"badframe","len":n,"arp":is_arp,"ok":r.is_ok()}));
+        }
+        Ok(())
+    }
+    fn demux(&self, _m: Message, _c: Arc<dyn Session>, _ctl: Control, _ma: Arc<Machine>) -> Result<(), DemuxError> {
+        Ok(())
+    }
+}
+
+/// frames whose headers fail to decode at the PCI / IPv4 / UDP / TCP / ARP layer
+fn bad_frame(rng: &mut SmallRng, client_ip: [u8; 4], stream: bool) -> (Vec<u8>, bool) {
+    let ip = |proto: u8, plen: usize, src: [u8; 4]| -> Vec<u8> {
+        let tl = (20 + plen) as u16;
+        let mut h = vec![0x45, 0, (tl >> 8) as u8, tl as u8, 0, 0, 0x40, 0, 30, proto, 0, 0];
+        h.extend(src);
+        h.extend(SERVER_IP);
+        h
+    };
+    let src = if rng.gen() { client_ip } else { [10, 9, 2, 1] };
+    let tcp_ports = [0xc0u8, 0x00, (PORT >> 8) as u8, PORT as u8]; // first ephemeral port 49152 -> server port
+    match rng.gen_range(0..12) {
+        0 => { let mut f = ip(17, 8, src); f[0] = 0x55; f.extend([0u8; 8]); (f, false) }              // IP version 5
+        1 => { let mut f = ip(17, 8, src); f[0] = 0x46; f.extend([0u8; 12]); (f, false) }             // IHL 6 (options)
+        2 => { let mut f = ip(6, 20, src); f[1] = 0x01; f.extend([0u8; 20]); (f, false) }             // reserved TOS bit
+        3 => { let mut f = ip(6, 20, src); f[6] = 0x80; f.extend([0u8; 20]); (f, false) }             // reserved flag
+        4 => (ip(6, 20, src)[..rng.gen_range(0..20)].to_vec(), false),                                  // truncated IPv4 header
+        5 => { let mut f = ip(17, 12, src); f.extend([0xc0, 0, (PORT >> 8) as u8, PORT as u8, 0, 99, 0, 0, 1, 2, 3, 4]); (f, false) } // UDP length mismatch
+        6 => { let mut f = ip(17, 5, src); f.extend([0xc0, 0, 2, 188, 0]); (f, false) }               // truncated UDP header
+        7 => { let mut f = ip(6, 24, src); f.extend(tcp_ports); f.extend([0, 0, 0, 1, 0, 0, 0, 1, 0x60, if stream { 0x04 } else { 0x10 }, 0xff, 0xff, 0, 0, 0, 0, 1, 2, 3, 4]); (f, false) } // TCP data offset 6 (RST bit set: must be ignored)
+        8 => { let mut f = ip(6, 11, src); f.extend(tcp_ports); f.extend([0u8; 7]); (f, false) }      // truncated TCP header
+        9 => { let mut f = vec![0, 1, 8, 0, 6, 4, 0, 3]; f.extend([0u8; 20]); (f, true) }              // ARP operation 3
+        10 => (vec![0, 1, 8, 0, 6, 4, 0, 1, 0, 0][..rng.gen_range(0..10)].to_vec(), true),              // truncated ARP
+        _ => ((0..rng.gen_range(0..40)).map(|_| rng.gen()).collect(), rng.gen()),                        // random bytes
+    }
+}
+
 const PORT: u16 = 700;
 const SERVER_IP: [u8; 4] = [10, 9, 0, 1];
 
@@ -172,7 +228,7 @@ impl Protocol for Server {
     }
 }
 
-pub fn scenario(run: u64, rng: &mut SmallRng, flavour: usize, backlog: bool) {
+pub fn scenario(run: u64, rng: &mut SmallRng, flavour: usize, backlog: bool, attack: bool) {
     let stream = backlog || rng.gen_range(0..4) != 0;
     let mtu: u16 = [100u16, 120, 576, 1500, 1500][rng.gen_range(0..5)];
     let net = NetworkBuilder::new().mtu(mtu).build();
@@ -236,6 +292,13 @@ pub fn scenario(run: u64, rng: &mut SmallRng, flavour: usize, backlog: bool) {
                 .arc(),
         );
     }
+    if attack {
+        let frames = (0..rng.gen_range(3..30)).map(|_| {
+            let (b, arp) = bad_frame(rng, [10, 9, 1, 10], stream);
+            ([0u64, 0, 500, 2000, 7000, 30000, 120000][rng.gen_range(0..7)], b, arp)
+        }).collect();
+        machines.push(Machine::new().with(Pci::new([net.clone()])).with(Attacker { frames }).arc());
+    }
     // loss with at most 3 consecutive drops per sender, duplicates, jitter
     let plan = Mutex::new((SmallRng::seed_from_u64(rng.gen()), std::collections::HashMap::<u64, u32>::new()));
     elvis_core::network::verif::set_frame_hook(Some(Arc::new(move |f: &elvis_core::network::verif::FrameInfo| {
@@ -277,7 +340,7 @@ pub fn drive(a: &Args) {
     let flavour = a.u64("workers", 0) as usize; // 0 = current_thread with paused clock, n = multi_thread with n workers
     for run in a.u64("from", 0)..runs {
         let mut rng = SmallRng::seed_from_u64(seed.wrapping_mul(67867967).wrapping_add(run));
-        scenario(run, &mut rng, flavour, a.flag("backlog"));
+        scenario(run, &mut rng, flavour, a.flag("backlog"), a.flag("attack"));
         flush_to(&out, true);
     }
     println!("{}", json!({"runs": runs}));
